@@ -2,7 +2,9 @@
    metric objects) with OCaml floats; floatToGoString of the bucket bounds is a table answered by CPython and sent with
    the request (as in C12).  Families and calls travel in the C01 encoding, the directory in the C12 encoding.
    (c08h_run families metas ftab (step...))  with step = (start pid) | (call pid now call) | (dead pid) | mark
-   -> ((outcome...) (directory at every mark...)) *)
+                                                       | (fork parent child)   (model/MultiFork.v: mf_step)
+   -> ((outcome...) (directory at every mark...))
+   Every step goes through MultiFork.mf_step; without fork steps that is mh_step (C08f_without_forks). *)
 open Model
 open Sx
 open Conv
@@ -19,17 +21,18 @@ let register (reg : string -> (Sx.t list -> Sx.t) -> unit) =
         let ofz = Cmds_c01.c01_of_z and zlef = Cmds_c01.c01_zlef in
         if List.length metas <> List.length fams then bad "metas";
         let shapes = List.map shape_of fams in
-        let st = ref mh_init in
+        let st = ref mf_init in
         let outs = ref [] and dirs = ref [] in
         List.iter (fun s ->
             let step h =
-              let (s', out) = mh_step 0.0 1.0 fadd fneg flt fle feqb ofz zlef fmt_le shapes metas !st h in
+              let (s', out) = mf_step 0.0 1.0 fadd fneg flt fle feqb ofz zlef fmt_le shapes metas !st h in
               st := s'; outs := Cmds_c01.put_outcome out :: !outs in
             match s with
-            | L [A "start"; p] -> step (HStart (get_str p))
-            | L [A "call"; p; now; c] -> step (HCall (get_str p, get_float now, Cmds_c01.get_call c))
-            | L [A "dead"; p] -> step (HDead (get_str p))
-            | A "mark" -> dirs := Cmds_c12.c12_put_fs !st.h_fs :: !dirs
+            | L [A "start"; p] -> step (FStep (HStart (get_str p)))
+            | L [A "call"; p; now; c] -> step (FStep (HCall (get_str p, get_float now, Cmds_c01.get_call c)))
+            | L [A "dead"; p] -> step (FStep (HDead (get_str p)))
+            | L [A "fork"; p; c] -> step (FFork (get_str p, get_str c))
+            | A "mark" -> dirs := Cmds_c12.c12_put_fs !st.f_mh.h_fs :: !dirs
             | _ -> bad "step")
           (match steps with L l -> l | _ -> bad "steps");
         L [L (List.rev !outs); L (List.rev !dirs)]
